@@ -6,7 +6,7 @@ from fractions import Fraction
 from lib.core import frac, lst, qlit
 
 HEADER = ("From Coq Require Import List QArith Qcanon. Import ListNotations.\n"
-          "From FV Require Import base.Scalar base.Cplx base.Util model.Yee model.YeeExec.\n"
+          "From FV Require Import base.Scalar base.Cplx base.Util model.Yee model.YeeExec model.YeeFull.\n"
           "Notation K := QcF.\n")
 
 AX = "xyz"
@@ -104,6 +104,36 @@ def scene_term(case, out, inj=None, pmls="[]") -> str:
             f"{w[0]} {w[1]} {w[2]} {qlit(out['ref'])} {M3_of(shape, out['ieps'])} {M3_of(shape, out['imu'])} "
             f"{M3_of(shape, out.get('sigE'))} {M3_of(shape, out.get('sigH'))} {qlit(out['eta0'])} {qlit(out['cn'])} "
             f"{M3_of(shape, mE)} {M3_of(shape, mH)} {pmls} {inj_t})")
+
+
+def T9_opt(shape, arr9) -> str:
+    """option (T9 K) term from a row-major 9-component nested list (None -> iso / diagonal tier)"""
+    if arr9 is None:
+        return "None"
+    nx, ny, nz = shape
+    return f"(Some (T9_of K {nx} {ny} {nz} {qlit(0)} {lst([l3(arr9[c], qlit) for c in range(9)])}))"
+
+
+def full_steps_expr(case_shape, sc, out, steps, exact, tol=1e-9, scale=4):
+    """like steps_expr, for the 9-component tiers: fn in {"forward_fullX", "backward_fullX"}"""
+    nx, ny, nz = case_shape
+    cmp_ = "fields_eqb" if exact else f"fields_close {qlit(tol)} {qlit(scale)}"
+    ids, binds = {}, []
+    def ref(st):
+        if id(st) not in ids:
+            n = len(ids)
+            ids[id(st)] = n
+            binds.append(f"let fe{n} := {fields_lit(st['E'])} in let fh{n} := {fields_lit(st['H'])} in ")
+        return ids[id(st)]
+    def v3(name):
+        return f"(V3_of K {nx} {ny} {nz} (nth 0 {name} []) (nth 1 {name} []) (nth 2 {name} []))"
+    parts = []
+    for fn, a, b in steps:
+        ia, ib = ref(a), ref(b)
+        parts.append(f"(let s := {fn} K sc ie9 im9 (mkSt (K:=K) {a['t']} {v3(f'fe{ia}')} {v3(f'fh{ia}')} [] []) in (Nat.eqb (tstep s) {b['t']}) && "
+                     f"({cmp_} (V3_tab K {nx} {ny} {nz} (fE s)) fe{ib}) && ({cmp_} (V3_tab K {nx} {ny} {nz} (fH s)) fh{ib}))")
+    return (f"(let sc := {sc} in let ie9 := {T9_opt(case_shape, out.get('ieps9'))} in let im9 := {T9_opt(case_shape, out.get('imu9'))} in "
+            + "".join(binds) + "(" + " && ".join(parts) + ")%bool)")
 
 
 def inj_term(shape, injE, injH) -> str:
